@@ -325,3 +325,30 @@ def load_known_findings(pid: str):
 def write_evidence(pid: str, ev: dict):
     EVIDENCE.mkdir(exist_ok=True)
     (EVIDENCE / f"{pid}.json").write_text(json.dumps(ev, indent=1, default=str) + "\n")
+
+
+def run_coqchk(pid: str, timeout: int = 1500) -> dict:
+    """coqchk -o on the property's Properties module: the independent checker re-checks the compiled theorems and
+    every library file they depend on, and lists axioms / unsafe features of the whole context."""
+    import re
+    import subprocess
+    import time as _t
+    t0 = _t.time()
+    try:
+        p = subprocess.run(["coqchk", "-o", "-silent", "-Q", "theories", "AUC", f"AUC.{pid}.Properties"],
+                           cwd=str(COQ), capture_output=True, text=True, timeout=timeout)
+        out = (p.stdout or "") + (p.stderr or "")
+        rc = p.returncode
+    except subprocess.TimeoutExpired:
+        return {"ok": False, "tail": "coqchk timed out", "wall_s": round(_t.time() - t0, 1)}
+    summ = out[out.find("CONTEXT SUMMARY"):] if "CONTEXT SUMMARY" in out else out[-1500:]
+
+    def field(name):
+        m = re.search(r"\* " + re.escape(name) + r":\s*(.*?)(?=\n\s*\n\* |\Z)", summ, re.S)
+        return " ".join(m.group(1).split()) if m else "?"
+    fields = {k: field(k) for k in ("Axioms", "Constants/Inductives relying on type-in-type",
+                                    "Constants/Inductives relying on unsafe (co)fixpoints",
+                                    "Inductives whose positivity is assumed")}
+    ok = rc == 0 and all(v == "<none>" for v in fields.values())
+    return {"ok": ok, "rc": rc, "cmd": f"coqchk -o -silent -Q theories AUC AUC.{pid}.Properties", **{k.split()[0].lower() if k == "Axioms" else k: v for k, v in fields.items()},
+            "tail": summ[-1200:] if not ok else "", "wall_s": round(_t.time() - t0, 1)}
